@@ -65,6 +65,18 @@ def run():
     res, st = evalcheck.run_family(ck, "C08", fam, "order", flaky_is_violation=True,
                                    signature=lambda tag, r: f"C08:order:{tag.split(':')[0]}:{evalcheck.first_diff(r['observed'], r.get('predicted'))}")
     ck.cov["order"] = st
+    # arguments written at a variable call (recv.^f(args)): the grammar accepts them, so they are arguments of a call
+    vreqs = []
+    for shape in ("1.^g({a})", "[1, 2]@^g({a})", "1.^g({a}, k: {b})", "[1, 2]$(0)^h({a})", "1&.^g({a})", "1.^g(*[{a}], **{{k: {b}}})"):
+        vreqs.append({"id": f"v{len(vreqs)}", "src": "g := {|x, y, k: 0| [x, y, k]}; h := {|acc, x| acc}\nsay(70)\nr := " + shape.format(a="say(1)", b="say(2)") + "\nsay(71)\nr"})
+    vout = run_cases(vreqs, label="C08 variable-call arguments")
+    for rq in vreqs:
+        ev = vout[rq["id"]]["events"]
+        wanted = ["out:1"] + (["out:2"] if "say(2)" in rq["src"] else [])
+        between = ev[ev.index("out:70") + 1: ev.index("out:71")] if "out:70" in ev and "out:71" in ev else ev
+        if [e for e in between if e in ("out:1", "out:2")] != wanted * (2 if "@^" in rq["src"] and False else 1):
+            ck.reject("C08:varcall-arguments-not-evaluated", f"{rq['src'].splitlines()[2]!r}: the arguments written at the variable call are evaluated {between} (each must be evaluated exactly once, in order)",
+                      {"src": rq["src"], "observed": ev, "expected_between_70_and_71": wanted})
     # repetition: same parsed program N times in one process, re-parsed, and in n_proc different processes
     srcs = [(f"F{i}", tag, panlang.program_src(body)) for i, (tag, body) in enumerate(fam)] + [(f"R{i}", "raw", s) for i, s in enumerate(RAW)]
     total_runs = 0
